@@ -607,7 +607,7 @@ def run_roundtrip(ctx, tmp, rng):
 
     from nauyaca.security.tofu import TOFUDatabase
 
-    for trial in range(ctx.pick(40, 400) // ctx.nshards + 1):
+    for trial in range(ctx.pick(40, 2400) // ctx.nshards + 1):
         src = os.path.join(tmp, "rt-src.db")
         dst = os.path.join(tmp, "rt-dst.db")
         for p in (src, dst):
